@@ -22,6 +22,12 @@ func genC08(r *rt.Rand, tier string, idx int) *world.Scenario {
 	}
 	concurrent := idx%3 == 2
 	sc.Class = "sequential-compaction-requests"
+	if idx%20 == 13 {
+		// configurations in which compaction has little or nothing to remove: prefixes it leaves alone, up to
+		// the node's whole range - an accepted compaction still raises the floor
+		sc.Skipped = [][]string{{prefix}, {prefix + "/a", prefix + "/b", prefix + "/c"}, {prefix + "/a"}}[r.Intn(3)]
+		defer func() { sc.Class += "+skipped-prefixes" }()
+	}
 	keys := []string{prefix + "/a", prefix + "/a/b", prefix + "/b", prefix + "/c"}
 	span := 8 + r.Intn(25)
 	revPool := func() world.Rev {
